@@ -70,6 +70,18 @@ theorem planJoins_valid (db : DB) (hnd : (db.map (·.name)).Nodup) (projection c
       (pivots ≠ [] → pivots.length + 1 ≤ (components db (requiredRels projection condFs rels)).length) :=
   planJoins_valid_aux db hnd projection condFs rels plan h
 
+/-- the recursion fuel of the planner model (`pivotLoop`: number of relations + 1; `orderJoins`:
+join-map length + 1) is never what makes it fail: `Err.fuel` is unreachable for every database and
+query. -/
+theorem planner_fuel_suffices (db : DB) (projection condFs : List QName) (rels : List String) :
+    planJoins db projection condFs rels ≠ .error .fuel :=
+  planJoins_no_fuel db projection condFs rels
+
+/-- likewise for the lexer model: with one unit of fuel per character and one more (what the driver
+and `Compose.lexText` give it), `lexLine` never answers `Err.fuel`, on any text. -/
+theorem lexer_fuel_suffices (n : Nat) (s : List Char) (h : s.length < n) : lexLine n s ≠ .error .fuel :=
+  lexLine_no_fuel n s h
+
 /-- `select_eq_spec` with the plan characterised: an answer of `select` is the filtered, projected
 nested-loop join over a valid join order of the required relations plus linking relations. -/
 theorem select_plan_valid (rx : List Char → List Char → Bool) (db : DB) (q : Query) (res : Result)
@@ -94,7 +106,7 @@ example : treeLinked coreSchema = true := by decide
 
 /-- existence on the core schema, for every non-empty set of required relations (all 15): the plan
 exists, is a valid order, contains every required relation and at most one linking relation. -/
-theorem core_schema_plans_exist :
+example :
     ∀ req ∈ subsets ["item", "run", "parse", "result"], req ≠ [] → planOK coreSchema req = true := by
   decide
 
@@ -103,8 +115,8 @@ non-empty set of required relations the plan exists".  Tree-linkedness alone doe
 relations two links apart (item and a relation below result) cannot be joined through one linking
 relation, and the planner answers `TSQLError` — which is what the property's "(connected through at
 most one linking relation)" excludes.  Existence is proved for the core schema
-(`core_schema_plans_exist`) and otherwise observed through the correspondence. -/
-theorem tree_linked_without_plan :
+(the `decide`-checked instance above) and otherwise observed through the correspondence. -/
+example :
     let db : DB := coreSchema.map (fun r => if r.name = "result"
         then { r with fields := r.fields.map (fun f => if f.name = "result-id" then { f with isKey := true } else f) }
         else r) ++ [{ name := "edge", fields := [⟨"result-id", .integer, true⟩, ⟨"e-lab", .string, false⟩], rows := [] }]
@@ -117,16 +129,21 @@ each relation involved — such that (a) the condition holds when each compariso
 evaluated on the cast value of column `c` of `w n` (`evalW`), and (b) the returned row is, column by
 column in the requested order, the raw text of a cell whose cast value is the cast value of the
 requested column `n.c` in `w n` (for a shared key the cell is the first joined relation's, equal as
-a cast value — "shared keys once").  Together with `select_eq_spec` (every agreeing combination is
-kept, in order, once per combination) this is "exactly the rows of the inner join … that satisfy
-the condition, projected to the requested columns in the requested order". -/
+a cast value — "shared keys once"), and (c) `JoinWitness`: `w n` is a stored row of `n` for EVERY
+planned relation `n` (also those named only in the condition or only linking), and any two planned
+relations agree, as cast values, on every key column they both have (`KeyCol`; by `planJoins_valid`
+all key columns of a planned relation are among its planned columns) — so the witnesses form a row of
+the inner join on shared keys, not of a cross product.  This is the soundness half; completeness and
+multiplicity are `select_eq_spec` + `join_step_is_relational` (every agreeing pair is kept, in order,
+once), stated there in terms of the model's joined rows. -/
 theorem select_sound (rx : List Char → List Char → Bool) (db : DB) (q : Query) (res : Result)
     (h : select rx db q = .ok res) :
-    ∃ proj cond, resolveProj db q = .ok proj ∧ resolveQCond db q = .ok cond ∧
+    ∃ proj cond plan, resolveProj db q = .ok proj ∧ resolveQCond db q = .ok cond ∧
+      planJoins db proj (condFieldsOpt cond) q.rels = .ok plan ∧
       ∀ out ∈ res.rows, ∃ (w : String → List Cell) (cells : List Cell),
         out = cells.map (·.raw) ∧ CellsOf db w proj cells ∧
-        (∀ c, cond = some c → evalW rx db w c = true) :=
-  select_sound_aux rx db q res h
+        (∀ c, cond = some c → evalW rx db w c = true) ∧ JoinWitness db plan w :=
+  select_sound_strong_aux rx db q res h
 
 /-- the invariant behind `select_sound`, usable on its own: in every selection produced by the
 join loop, each qualified name `n.c` of the index points, in every joined row, at a cell whose cast
@@ -134,7 +151,7 @@ value is that of column `c` in the witness row of relation `n`; in particular tw
 were joined on a shared key `k` have `n₁.k` and `n₂.k` at the same position, so their witness rows
 agree on `k`. -/
 theorem joined_rows_witnessed (db : DB) (plan : List (String × List String)) (sel : Sel)
-    (h : runJoins db Sel.empty plan = .ok sel) : ∀ row ∈ sel.data, Witnessed db sel.index row := by
+    (h : runJoins db Sel.empty plan = .ok sel) : ∀ row ∈ sel.data, Witnessed db sel.index sel.joined row := by
   rw [runJoins_eq_nestedJoins] at h
   exact (nestedJoins_inv db Sel.empty plan sel (selInv_empty db) h).wit
 
@@ -191,19 +208,11 @@ theorem negated_regex_matches_empty (rx : List Char → List Char → Bool) (l :
     evalLeaf rx .nre .none l = true := by
   simp [evalLeaf]
 
-/-! One theorem per operator: what each comparison returns on an empty (None) field, whatever the
-literal.  The logic is two-valued — an empty field makes the comparison *false*, not unknown — so
-`not` over a comparison on an empty field is *true*, and is not the opposite comparison. -/
-
-theorem empty_eq (rx : List Char → List Char → Bool) (l : Lit) : evalLeaf rx .eq .none l = false := rfl
-theorem empty_ne (rx : List Char → List Char → Bool) (l : Lit) : evalLeaf rx .ne .none l = false := rfl
-theorem empty_lt (rx : List Char → List Char → Bool) (l : Lit) : evalLeaf rx .lt .none l = false := rfl
-theorem empty_le (rx : List Char → List Char → Bool) (l : Lit) : evalLeaf rx .le .none l = false := rfl
-theorem empty_gt (rx : List Char → List Char → Bool) (l : Lit) : evalLeaf rx .gt .none l = false := rfl
-theorem empty_ge (rx : List Char → List Char → Bool) (l : Lit) : evalLeaf rx .ge .none l = false := rfl
-theorem empty_re (rx : List Char → List Char → Bool) (l : Lit) : evalLeaf rx .re .none l = false := by
-  cases l <;> rfl
-theorem empty_nre (rx : List Char → List Char → Bool) (l : Lit) : evalLeaf rx .nre .none l = true := rfl
+/-! What each comparison returns on an empty (None) field is `cmp_never_matches_empty`,
+`regex_never_matches_empty`, `negated_regex_matches_empty` above (they hold by definition of `evalLeaf`,
+which is tied to `_process_condition_function` by the correspondence).  The logic is two-valued — an
+empty field makes the comparison *false*, not unknown — so `not` over a comparison on an empty field
+is *true*, and is not the opposite comparison: -/
 
 /-- `not` is not folded into the comparison below it: on a row whose compared field is empty,
 `not (x op lit)` holds for each of `== != < <= > >=`, while the opposite comparison
@@ -233,7 +242,7 @@ whenever `select` returns rows, every comparison in the condition names a column
 whose datatype is the type of its literal. -/
 theorem typeMismatch_rejected (rx : List Char → List Char → Bool) (db : DB) (q : Query) (r : Result)
     (h : select rx db q = .ok r) (c : Cond ColRef) (hc : q.cond = some c) :
-    ∀ lf ∈ leaves c, ∃ qn f, resolve db q.rels lf.2.1 = .ok (qn, f) ∧ litType lf.2.2 = some f.dtype :=
+    ∀ lf ∈ leaves c, ∃ qn f, resolve db q.rels lf.2.1 = .ok (qn, f) ∧ litFits f.dtype lf.2.2 = true :=
   typeMismatch_rejected_aux rx db q r h c hc
 
 /-- contrapositive form: one ill-typed comparison anywhere in the condition tree and `select`
@@ -241,12 +250,12 @@ yields an error, never a row list -/
 theorem typeMismatch_never_rows (rx : List Char → List Char → Bool) (db : DB) (q : Query)
     (c : Cond ColRef) (hc : q.cond = some c) (lf : Op × ColRef × Lit) (hlf : lf ∈ leaves c)
     (qn : QName) (f : Field) (hres : resolve db q.rels lf.2.1 = .ok (qn, f))
-    (hty : litType lf.2.2 ≠ some f.dtype) : ∀ r, select rx db q ≠ .ok r := by
+    (hty : litFits f.dtype lf.2.2 = false) : ∀ r, select rx db q ≠ .ok r := by
   intro r h
   obtain ⟨qn', f', h1, h2⟩ := typeMismatch_rejected rx db q r h c hc lf hlf
   rw [hres] at h1
   cases h1
-  exact hty h2
+  rw [h2] at hty; cases hty
 
 /-! ### grammar -/
 
@@ -405,7 +414,7 @@ example :
     (∀ t ∈ ts, printable t = true) ∧ seqOK ts = true := by decide
 
 /-- `where c₁ where c₂ …` means `and [c₁, c₂, …]` -/
-theorem where_where_is_conjunction (c1 c2 : Cond ColRef) (cs : List (Cond ColRef)) :
+example (c1 c2 : Cond ColRef) (cs : List (Cond ColRef)) :
     whereCond (c1 :: c2 :: cs) = some (.and (c1 :: c2 :: cs)) := rfl
 
 /-- `*` without `from` is a syntax error (documented difference to standard TSQL) -/
@@ -420,7 +429,7 @@ theorem star_needs_from (n : Nat) (ws : List Tok) :
 
 /-- recorded behaviour (DESIGN §C11): `not` takes the whole disjunction to its right, so
 `not A or B` is `not (A or B)`; `(not A) or B` needs the parentheses the printer `pr` writes. -/
-theorem not_takes_disjunction :
+example :
     parseDisj 20 [.not_, .id "a", .op .eq1, .int 1, .or_, .id "b", .op .eq1, .int 2, .dot]
       = .ok (.not (.or [.leaf .eq ⟨"", "a"⟩ (.int 1), .leaf .eq ⟨"", "b"⟩ (.int 2)]), [.dot]) := by
   rfl
@@ -430,7 +439,7 @@ cycle): linking relations are added greedily in schema order, so with `fs(parse-
 before `parse` the plan joins `fs` as well although `parse` alone links item, run and result; the
 answer then depends on the order of the relations in the schema.  Not a claim about tree-linked
 schemas. -/
-theorem pivot_greedy_observation :
+example :
     (planJoins
       [{ name := "fs", fields := [⟨"parse-id", .integer, true⟩, ⟨"i-id", .integer, true⟩, ⟨"f-val", .string, false⟩], rows := [] },
        { name := "item", fields := [⟨"i-id", .integer, true⟩, ⟨"i-input", .string, false⟩], rows := [] },
@@ -537,7 +546,7 @@ theorem c11_pins :
         ("_make_qname_resolver", ["True", "(key,reverse)", "colname", "return", "<resolve>", "None", ".", "0"]),
         ("_plan_joins", [".", "False", "True"]),
         ("_pivot_relations", ["<add_edges>", "None", "1", "1", "False", "<<genexpr>>", "1", "0", "None", "True"]),
-        ("_process_condition_fields", ["None", "(and,or)", "not", "0", "1"]),
+        ("_process_condition_fields", ["None", "(and,or)", "not", "0", "1", "|", "<<genexpr>>", "None"]),
         ("_expected_type", ["None", ":string", ":integer", ":float", ":date"]),
         ("_process_condition_function", ["None", "(and,or)", "and", "<func>", "None", "<<genexpr>>", "None", "not", "<func>", "None", "~", "<func>", "None", "0", "1", "!~", "<func>", "None", "0", "1", "<func>", "None", "0", "1"]),
         ("_join", ["(inner,left)", "None", "True", "(cast)", "cast", "left"]),
